@@ -117,7 +117,8 @@ def RULE(tier):
         f"{4 if tier == 'quick' else 5}-partition splits ({len(_parts(tier))} partitionings). "
         f"shuffle: on in {SHUFFLE_ON[tier]} x npartitions in {SHUFFLE_NOUT[tier]} x {SHUFFLE_METHODS} x ignore_index: every key value in "
         "exactly one output partition, row multiset preserved. "
-        f"sort_values: by in {SORT_BY[tier]} x ascending x na_position x npartitions {SORT_NOUT[tier]} x {SORT_METHODS[tier]}: key-column sequence "
+        f"sort_values: by in {SORT_BY[tier]} x ascending x na_position x npartitions {SORT_NOUT[tier]} x {SORT_METHODS[tier]}"
+        f"{' (+ multi-stage tasks for ki, also in set_index)' if tier == 'quick' else ''}: key-column sequence "
         "== pandas, rows == pandas as labelled multiset. "
         f"set_index: {SETIDX_COL[tier]} x drop x modes {SETIDX_MODES[tier]} (npartitions, sort=False, sorted=True on presorted input, user "
         f"divisions) x {SETIDX_METHODS[tier]}: index sequence == pandas set_index().sort_index(), rows as labelled multiset. "
@@ -134,10 +135,10 @@ def shards(tier):
         for m in SHUFFLE_METHODS:
             out.append(("shuffle", on, m))
     for by in SORT_BY[tier]:
-        for m in SORT_METHODS[tier]:
+        for m in SORT_METHODS[tier] + (("tasks-mb2",) if tier == "quick" and by == "ki" else ()):
             out.append(("sort", by, m))
     for col in SETIDX_COL[tier]:
-        for m in SETIDX_METHODS[tier]:
+        for m in SETIDX_METHODS[tier] + (("tasks-mb2",) if tier == "quick" and col == "ki" else ()):
             out.append(("setidx", col, m))
     for sub in DEDUP_SUBSET[tier]:
         for m in DEDUP_METHODS:
